@@ -95,3 +95,154 @@ Proof.
       destruct IH as (H1 & H2 & H3). repeat split; try assumption; lia.
     + repeat split; try lia. assumption.
 Qed.
+
+(* ---------------------------------------------------------------- table invariant *)
+Section Inv.
+Variable hash : Z -> Z.
+Hypothesis hash_range : forall k, 0 <= hash k < 2 ^ 64.
+
+Definition occ (b : bucket) (slot : Z) : Prop := 3 - cnt b <= slot <= 2.
+Definition bwf (b : bucket) : Prop :=
+  enc_inv (bst b) /\ (forall i, 0 <= i < 3 - cnt b -> bsh b i = 128) /\ (forall i, 3 - cnt b <= i <= 2 -> 0 <= bsh b i < 128).
+Definition home (L key : Z) : Z := Gen_Base.GetStartBucketIndex (hash key) (2 ^ L).
+
+(* the element in (bucket b, slot) sits on the probe path of the home bucket of its TRUE hash, within the bound recorded
+   there, with the short hash of its true hash and (where the byte is live) the packing of its true hash *)
+Definition elem_ok (L : Z) (t : table) (b slot : Z) : Prop :=
+  let key := bky (t b) slot in let h := hash key in
+  exists p, 0 <= p < 2 ^ L /\ b = pidx L (home L key) p /\ p <= decode (bst (t (home L key))) /\
+    bsh (t b) slot = Gen_O2.pvCalcShortHash h /\ 0 <= bhp (t b) slot < 256 /\
+    ((L + 7) mod 8 <> 0 -> bhp (t b) slot = o2_byte h L p).
+
+Definition Tinv (L : Z) (t : table) : Prop :=
+  (forall i, bwf (t i)) /\ (forall b slot, 0 <= b < 2 ^ L -> occ (t b) slot -> elem_ok L t b slot).
+
+Definition Present (L : Z) (t : table) (key : Z) : Prop :=
+  exists b slot, 0 <= b < 2 ^ L /\ occ (t b) slot /\ bky (t b) slot = key.
+
+Lemma bwf_cnt b : bwf b -> 0 <= cnt b <= 3 /\ cnt b = bst b 1 mod 4.
+Proof.
+  intros [(H0 & H1 & _) _]. rewrite cnt_val by lia. split; [|reflexivity]. pose proof (Z.mod_pos_bound (bst b 1) 4 ltac:(lia)). lia.
+Qed.
+
+Lemma home_range L key : 0 <= L <= 63 -> 0 <= home L key < 2 ^ L.
+Proof. intros. unfold home. rewrite start_mod by lia. apply Z.mod_pos_bound. apply pow2_pos. lia. Qed.
+
+Lemma pidx_0 L s : 0 <= L -> 0 <= s < 2 ^ L -> pidx L s 0 = s.
+Proof. intros. unfold pidx, tri. simpl. rewrite Z.add_0_r. apply Z.mod_small. assumption. Qed.
+
+Lemma empty_inv L : Tinv L empty_table.
+Proof.
+  split.
+  - intros i. unfold bwf, empty_table, empty_bucket, cnt. cbn. split; [unfold enc_inv; cbn; lia|]. split; intros; [reflexivity|lia].
+  - intros b slot Hb Ho. unfold occ, empty_table, empty_bucket, cnt in Ho. cbn in Ho. lia.
+Qed.
+
+(* pvAddNogrow with a code that agrees with the true hash on what the placement reads *)
+Lemma add_nogrow_spec L t code key : 0 <= L <= 57 -> Tinv L t -> 0 <= code < 2 ^ 64 ->
+  Gen_Base.GetStartBucketIndex code (2 ^ L) = home L key ->
+  Gen_O2.pvCalcShortHash code = Gen_O2.pvCalcShortHash (hash key) ->
+  (forall p, 0 <= p -> (L + 7) mod 8 <> 0 -> o2_byte code L p = o2_byte (hash key) L p) ->
+  match add_nogrow t L code key with
+  | Ok t' => Tinv L t' /\ Present L t' key /\ (forall k, Present L t k -> Present L t' k)
+  | Exn => True
+  | _ => False
+  end.
+Proof.
+  intros HL [Hwf Hel] Hcode Hstart Hshort Hbyte.
+  assert (Hpos : 0 < 2 ^ L) by (apply pow2_pos; lia).
+  assert (Hle : 2 ^ L <= 2 ^ 57) by (apply pow2_le_mono; lia).
+  unfold add_nogrow. rewrite shl1_pow2 by lia.
+  rewrite (wrapU_small 64 (2 ^ L)) by (change (2 ^ 64) with (128 * 2 ^ 57); lia).
+  rewrite Hstart. pose proof (home_range L key ltac:(lia)) as Hhome. set (start := home L key) in *.
+  pose proof (probe_loop_spec L t start ltac:(lia) (S (Z.to_nat (2 ^ L))) 0 ltac:(lia) ltac:(lia)) as Hloop.
+  rewrite pidx_0 in Hloop by lia.
+  destruct (probe_loop _ t (2 ^ L) start 0) as [[idx p]| | |]; try exact Hloop.
+  destruct Hloop as (Hp & Hidx & Hfull).
+  pose proof (Hwf idx) as Hwfi. pose proof (bwf_cnt _ Hwfi) as [Hc Hcv]. destruct Hwfi as (Henc & Hemp & Hoc).
+  set (c := cnt (t idx)) in *.
+  assert (Hc3 : c < 3).
+  { destruct (Z.lt_ge_cases c 3); [assumption|exfalso]. assert (c = 3) by lia.
+    unfold Gen_O2.IsFull, Gen_O2.emptyShortHash in Hfull. pose proof (Hoc 0 ltac:(lia)).
+    change (wrapU 8 (Z.shiftl 1 (wrapU 64 (wrapU 64 (1 * 8) - 1)))) with 128 in Hfull.
+    destruct (Z.ltb_spec (bsh (t idx) 0) 128); [discriminate|lia]. }
+  rewrite o2_addcrt_eq by (try lia; change (2 ^ 64) with (128 * 2 ^ 57); lia).
+  fold (cnt (t idx)). fold c. cbv zeta. destruct (Z.ltb_spec c 3); [|lia].
+  rewrite (wrapU_small 64 (2 - c)) by (change (2 ^ 64) with 18446744073709551616; lia).
+  destruct (st_inc (bst (t idx)) Henc ltac:(lia)) as (Henc' & Hdec' & Hcnt' & Hs0').
+  set (st' := upd (bst (t idx)) 1 (wrapU 8 (bst (t idx) 1 + 1))) in *.
+  set (sh' := upd (bsh (t idx)) (2 - c) (Gen_O2.pvCalcShortHash code)).
+  set (hp' := upd (bhp (t idx)) (2 - c) (o2_byte code L p)).
+  set (ky' := upd (bky (t idx)) (2 - c) key).
+  set (t1 := tupd t idx (mkB st' sh' hp' ky')).
+  assert (Henc1 : enc_inv (bst (t1 start))).
+  { unfold t1, tupd. destruct (Z.eqb start idx); [exact Henc'|apply (Hwf start)]. }
+  destruct (update_spec (bst (t1 start)) p Henc1 ltac:(change (2 ^ 63) with (64 * 2 ^ 57); lia))
+    as (st'' & Hupd & Henc'' & Hcov & Hmono & Hcb).
+  rewrite Hupd. unfold count_bits in Hcb.
+  set (t' := tupd t1 start (mkB st'' (bsh (t1 start)) (bhp (t1 start)) (bky (t1 start)))).
+  (* frame facts *)
+  assert (Fsh : forall j, bsh (t' j) = if Z.eqb j idx then sh' else bsh (t j)).
+  { intros j. unfold t', t1, tupd. destruct (Z.eqb_spec j start) as [->|]; cbn [bsh]; destruct (Z.eqb start idx) eqn:E; try reflexivity.
+    all: destruct (Z.eqb j idx); reflexivity. }
+  assert (Fhp : forall j, bhp (t' j) = if Z.eqb j idx then hp' else bhp (t j)).
+  { intros j. unfold t', t1, tupd. destruct (Z.eqb_spec j start) as [->|]; cbn [bhp]; destruct (Z.eqb start idx) eqn:E; try reflexivity.
+    all: destruct (Z.eqb j idx); reflexivity. }
+  assert (Fky : forall j, bky (t' j) = if Z.eqb j idx then ky' else bky (t j)).
+  { intros j. unfold t', t1, tupd. destruct (Z.eqb_spec j start) as [->|]; cbn [bky]; destruct (Z.eqb start idx) eqn:E; try reflexivity.
+    all: destruct (Z.eqb j idx); reflexivity. }
+  assert (Fst : forall j, enc_inv (bst (t' j)) /\ decode (bst (t j)) <= decode (bst (t' j)) /\
+                          bst (t' j) 1 mod 4 = (if Z.eqb j idx then c + 1 else bst (t j) 1 mod 4) /\
+                          (j = start -> p <= decode (bst (t' j)))).
+  { intros j. unfold t', tupd. destruct (Z.eqb_spec j start) as [->|Hjs]; cbn [bst].
+    - assert (Hc1 : st'' 1 mod 4 = bst (t1 start) 1 mod 4).
+      { unfold Gen_O2MP.pvGetCount in Hcb. destruct Henc'' as (_ & ? & _). destruct Henc1 as (_ & ? & _).
+        rewrite !land3 in Hcb by lia. exact Hcb. }
+      unfold decode in *. unfold t1, tupd in *. destruct (Z.eqb_spec start idx) as [->|]; cbn [bst] in *.
+      + repeat split; try assumption; try lia.
+      + repeat split; try assumption; try lia.
+    - unfold t1, tupd. destruct (Z.eqb_spec j idx) as [->|]; cbn [bst].
+      + repeat split; try assumption; try lia.
+      + destruct (Hwf j) as (He & _). repeat split; try assumption; try lia.
+  }
+  assert (Fcnt : forall j, cnt (t' j) = if Z.eqb j idx then c + 1 else cnt (t j)).
+  { intros j. destruct (Fst j) as ((_ & H1 & _) & _ & Hm & _). rewrite cnt_val by lia. rewrite Hm.
+    destruct (Z.eqb j idx); [reflexivity|]. destruct (bwf_cnt _ (Hwf j)) as [_ ->]. reflexivity. }
+  assert (Hidxr : 0 <= idx < 2 ^ L) by (rewrite Hidx; apply pidx_range; lia).
+  pose proof (o2_short_range code Hcode) as Hsr.
+  split; [split|split].
+  - (* bucket well-formedness *)
+    intros j. unfold bwf. rewrite Fsh, Fcnt. destruct (Fst j) as (He & _). split; [exact He|].
+    destruct (Z.eqb_spec j idx) as [->|].
+    + split; intros i Hi; unfold sh', upd; destruct (Z.eqb_spec i (2 - c)); try lia.
+      * apply Hemp. fold c. lia.
+      * apply Hoc. fold c. lia.
+    + apply (Hwf j).
+  - (* every element is on its true-hash probe path within the recorded bound *)
+    intros b slot Hb Ho. unfold occ in Ho. rewrite Fcnt in Ho. unfold elem_ok. rewrite Fky, Fsh, Fhp.
+    destruct (Z.eqb_spec b idx) as [->|Hne].
+    + destruct (Z.eq_dec slot (2 - c)) as [->|Hns].
+      * unfold ky', sh', hp'. rewrite !upd_same. exists p. fold start.
+        destruct (Fst start) as (_ & _ & _ & Hb4).
+        repeat split; try lia; try assumption.
+        -- apply Hb4. reflexivity.
+        -- apply o2_byte_range; lia.
+        -- apply o2_byte_range; lia.
+        -- intros Hnz. apply Hbyte; lia.
+      * assert (Ho' : occ (t idx) slot) by (unfold occ; fold c; lia).
+        destruct (Hel idx slot Hb Ho') as (p0 & Hp0 & Hb0 & Hbd0 & Hs0 & Hr0 & Hy0).
+        unfold ky', sh', hp'. rewrite !upd_other by lia. exists p0.
+        destruct (Fst (home L (bky (t idx) slot))) as (_ & Hm & _).
+        repeat split; try assumption; try lia.
+    + assert (Ho' : occ (t b) slot) by (unfold occ; lia).
+      destruct (Hel b slot Hb Ho') as (p0 & Hp0 & Hb0 & Hbd0 & Hs0 & Hr0 & Hy0).
+      exists p0. destruct (Fst (home L (bky (t b) slot))) as (_ & Hm & _).
+      repeat split; try assumption; try lia.
+  - exists idx, (2 - c). split; [assumption|]. split.
+    + unfold occ. rewrite Fcnt, Z.eqb_refl. lia.
+    + rewrite Fky, Z.eqb_refl. unfold ky'. apply upd_same.
+  - intros k (b & slot & Hb & Ho & Hk). exists b, slot. split; [assumption|]. unfold occ in *. rewrite Fcnt, Fky.
+    destruct (Z.eqb_spec b idx) as [->|]; [|split; assumption].
+    fold c in Ho. split; [lia|]. unfold ky'. rewrite upd_other by lia. assumption.
+Qed.
+End Inv.
